@@ -113,6 +113,18 @@ impl Ctx {
         }
     }
 
+    /// Tags the failures recorded so far as found in the given pass (logging configuration).
+    pub fn mark_pass_boundary(&self, pass: &str) {
+        let mut seen = self.seen.lock().unwrap_or_else(|e| e.into_inner());
+        for (_, s) in seen.iter_mut() {
+            if !s.detail.starts_with("[pass ") {
+                s.detail = format!("[pass logging={pass}] {}", s.detail);
+            }
+        }
+        drop(seen);
+        self.note(format!("pass with logging={pass} completed before the reported pass"));
+    }
+
     pub fn is_known(&self, signature: &str) -> bool {
         self.known
             .iter()
@@ -630,3 +642,44 @@ pub fn history_check<R: PartialEq + Send + Sync + std::fmt::Debug>(
     });
     stats.into_inner().unwrap_or_else(|e| e.into_inner())
 }
+
+// ---------------------------------------------------------------------------------------------
+// process-global configuration owned by the harness: the `log` facade and the time zone
+
+/// A logger that formats every record (so that lazily evaluated log-macro arguments and their
+/// side effects actually run) and throws the text away.
+pub struct SinkLogger;
+
+impl log::Log for SinkLogger {
+    fn enabled(&self, m: &log::Metadata) -> bool {
+        // only the library's own log statements (the HTTP stack's trace output is not under test)
+        m.target().starts_with("nexrad")
+    }
+    fn log(&self, record: &log::Record) {
+        use std::fmt::Write;
+        if !record.target().starts_with("nexrad") {
+            return;
+        }
+        thread_local! { static BUF: RefCell<String> = const { RefCell::new(String::new()) }; }
+        BUF.with(|b| {
+            if let Ok(mut b) = b.try_borrow_mut() {
+                b.clear();
+                let _ = write!(b, "{} {}", record.target(), record.args());
+            }
+        });
+    }
+    fn flush(&self) {}
+}
+
+static SINK: SinkLogger = SinkLogger;
+
+/// Installs the sink logger (once) and sets the global maximum level: `trace` makes every
+/// `trace!`/`debug!` in the library evaluate its arguments, `off` is the library's default state.
+pub fn set_logging(trace: bool) {
+    let _ = log::set_logger(&SINK);
+    log::set_max_level(if trace { log::LevelFilter::Trace } else { log::LevelFilter::Off });
+}
+
+/// The process runs in a non-UTC zone with daylight-saving rules (POSIX TZ string, no tz database
+/// needed), so that any accidental use of local time shows: every property speaks of UTC instants.
+pub const HARNESS_TZ: &str = "CST6CDT,M3.2.0,M11.1.0";
